@@ -56,6 +56,24 @@ PROPS = {
   "stages": [{"name": "c19-search", "kind": "search"}],
   "explanation": "",
  },
+ "C09": {
+  "level": "other",
+  "lean_module": None,
+  "stages": [{"name": "c09-search", "kind": "search"}],
+  "explanation": "",
+ },
+ "C11": {
+  "level": "other",
+  "lean_module": None,
+  "stages": [{"name": "c11-search", "kind": "search"}],
+  "explanation": "",
+ },
+ "C12": {
+  "level": "other",
+  "lean_module": None,
+  "stages": [{"name": "c12-search", "kind": "search"}],
+  "explanation": "",
+ },
  "C14": {
   "level": "proof",
   "lean_module": "ClipVerif.Props.C14",
